@@ -44,11 +44,13 @@ def cause_key(typ, ops):
         return 'forward'
     if any(o[0] == 'p' for o in ops):
         return 'replace'
+    if any(o[0] in 'es' for o in ops):
+        return 'alias'
     return 'other:' + typ
 
 
 class Corpus:
-    def __init__(self, rep, per_type, maxlen=14, mode=2, types=None, prop=None, guided=0.7, extra_cases=None):
+    def __init__(self, rep, per_type, maxlen=14, mode=3, types=None, prop=None, guided=0.7, extra_cases=None):
         self.rep = rep
         self.m = extract.Model()
         self.g = self.m.g
